@@ -423,14 +423,16 @@ static void case_statistics(Rng& rng, uint64_t index)
 		ld spread = 0;
 		for(double x : d)
 			spread = std::max(spread, fabsl((ld) x - mref));
-		double tol_v = 8 * n * EPS * (double) (spread * spread + spread * amax * 4 * n * EPS) + 8 * EPS * (double) vref + 1e-300;
+		// ... plus the square of the rounding error of the mean itself (4 n eps amax): for data whose values all coincide the spread is zero, the mean of
+		// three equal numbers may be one ulp off, and the variance comes out as ulp^2 instead of 0 (thorough tier, 3 cases in 2.4e7)
+		double tol_v = 8 * n * EPS * (double) (spread * spread + spread * amax * 4 * n * EPS) + 8 * EPS * (double) vref + 2 * tol_m * tol_m + 1e-300;
 		// the rounded mean shifts every deviation by up to tol_m: second-order only, covered by the spread*amax term
 		judge("variance-vs-reference-(n-1)", (double) fabsl((ld) var - vref), tol_v, [&] { return J().d("Variance", var).d("reference", (double) vref); });
 		judge("standard-deviation-is-sqrt-of-variance", std::fabs(sd - std::sqrt(var)), 4 * EPS * sd, [&] { return J().d("Standard_Deviation", sd).d("Variance", var); });
 		double vt = Variance(dt), vk = Variance(dk);
 		double tol_vt = 8 * n * EPS * (double) ((spread + 4 * n * EPS * (amax + fabsl((ld) t))) * (spread + 4 * n * EPS * (amax + fabsl((ld) t)))) + 64 * n * EPS * (double) spread * ((double) amax + std::fabs(t)) + 1e-300;
-		judge("variance-translation-invariant", std::fabs(vt - var), tol_v + tol_vt, [&] { return J().d("shift", t).d("Variance", var).d("shifted", vt); });
-		judge("variance-scaling-law", std::fabs(vk - k * k * var), 4 * k * k * tol_v + 16 * EPS * k * k * (double) (spread * amax) + 1e-300, [&] { return J().d("factor", k).d("Variance", var).d("scaled", vk); });
+		judge("variance-translation-invariant", std::fabs(vt - var), tol_v + tol_vt + 2 * tol_t * tol_t, [&] { return J().d("shift", t).d("Variance", var).d("shifted", vt); });
+		judge("variance-scaling-law", std::fabs(vk - k * k * var), 4 * k * k * tol_v + 16 * EPS * k * k * (double) (spread * amax) + 4 * k * k * tol_m * tol_m + 1e-300, [&] { return J().d("factor", k).d("Variance", var).d("scaled", vk); });
 		// Weighted_Average with equal weights = (mean, s/sqrt(N)); weight scaling invariance
 		double w = rng.loguni(1e-3, 1e3);
 		std::vector<DataPoint> dp, dp2;
